@@ -175,10 +175,19 @@ def check_query(q, funcs, enums, tier, logdir):
             lines = open(src).read().splitlines()
             def locate(rx, after=0, fuzzy=False):
                 alts = rx if isinstance(rx, list) else [rx]
+                code = lambda l: l.strip() and not l.strip().startswith("//")
                 for r in alts:
+                    # `(?#before)rx` / `(?#after)rx`: the nearest line of code before / after the first match of rx - anchors
+                    # that survive an edit of the line itself
+                    mode = re.match(r"^\(\?#(before|after)\)", r)
                     hits = [i + 1 for i, l in enumerate(lines) if i + 1 > after and re.search(r, l)]
-                    if hits:
+                    if hits and not mode:
                         return hits[0]
+                    if hits:
+                        rng = range(hits[0] - 2, after - 1, -1) if mode.group(1) == "before" else range(hits[0], len(lines))
+                        near = next((i + 1 for i in rng if code(lines[i])), None)
+                        if near:
+                            return near
                 if fuzzy and after:
                     # the anchor line itself was edited: take the line of the same function that is closest to the
                     # anchor's literal text (reported in the result); a wrong guess can only produce a candidate that
